@@ -102,9 +102,13 @@ package decor
 //@   modifies nothing
 
 // adapter from a user function to the interface: the function is the user's
+//@ functype TimeNormalizerFunc
+//@   modifies pkgstate("decor")
 //@ func (TimeNormalizerFunc).Normalize
-//@   props    C20
-//@   trusted
+//@   props    C20 C02
+//@   assumes  made: f != nil // a nil function converted to the adapter is a misuse the type cannot exclude
+//@   ensures  forwarded: called("(TimeNormalizerFunc).Normalize.f") == old(called("(TimeNormalizerFunc).Normalize.f")) + 1 && calledWith("(TimeNormalizerFunc).Normalize.f", 0) == src
+//@              && result == returned("(TimeNormalizerFunc).Normalize.f", 0)
 
 //@ iface TimeNormalizer.Normalize
 //@   params   src
